@@ -11,6 +11,61 @@ From Coq Require Import String Lia.
 Open Scope list_scope.
 Open Scope N_scope.
 
+(* ===================================================================================================================
+   THE PROPERTY, stated once.  "Any PLY file that follows the format specification using the supported scalar types -
+   whatever the order of properties, type aliases, extra unrecognised properties, comment and obj_info lines, CRLF
+   header line endings, list count and index types, and triangle or quad faces - loads without error to the mesh the
+   file describes."
+
+   a    : the abstract file (format ascii / little / big endian; vertex properties with one word per record; optional
+          face element with, per face, one word list per list property);
+   hl   : ANY header text another tool may write for it ([header_variant]): the canonical lines with type names
+          replaced by aliases ([alias_line]: uchar/uint8, float/float32, ... in scalar and list properties) and with
+          comment / obj_info / blank lines inserted anywhere after the format line; CRLF line ends never reach the
+          parser ([crlf_ignored]: [header_lines (crlf text) = header_lines text]);
+   b'   : the body of the reference encoder, or (ascii) that body with blank lines anywhere ([body_variant]);
+   [vertex_element_ok]: non-empty list of distinctly named uchar / int / float / double properties IN ANY ORDER, values
+          that fit; [face_element_ok]: no face element, or list properties with uchar/int/uint counts among which
+          (anywhere) the int/uint index list, faces of 3 or 4 existing vertices, optionally a float/double texcoord
+          list with two coordinates per corner;
+   [known_finding_excluded]: THE EXPLICIT EXCLUSION - in an ascii file no uchar property is read through a Vector1
+          reader (known finding ply:ascii-uchar-scalar-raw: such a property loads raw 0..255, see
+          [unclaimed_become_scalars_ascii]); nothing is excluded for binary files.
+   Conclusion: the model of ply.ReadMesh returns, without error, exactly [describe a]: vertex i carries the values of
+   record i, every recognised group is its attribute, every other property a scalar attribute, every quad the fan
+   (0,1,2),(0,2,3), per-corner texture coordinates the unwelded mesh.
+   Two remarks.  (1) For a uchar (s, t) pair the Go code multiplies by 1/255 (vector2.DivByConstant) where model and
+   [describe] divide by 255: one unit in the last place for 24 byte values; the check judges such files through
+   Formats/PlyReadV2.v.  (2) Elements after the face element are ignored by reader and model alike; that step is
+   covered by the correspondence check, not by this theorem.
+   =================================================================================================================== *)
+Theorem ply_files_written_by_other_tools_load : forall a hl b',
+  vertex_element_ok a -> face_element_ok a -> known_finding_excluded a ->
+  header_variant (header_of a) hl -> body_variant (enc_body a) b' ->
+  exists m, describe a = Ok m /\ read_mesh {| pf_header := hl; pf_body := b' |} = Ok m.
+Proof. exact property_proof. Qed.
+Print Assumptions ply_files_written_by_other_tools_load.
+
+(* the pieces of the packaging: blank lines inside an ascii body are skipped by vertex and face loops alike, for every
+   header and every line list; alias spellings give the same header *)
+Theorem body_blanks_ignored : forall gs u h lines,
+  read_body gs u h (BodyAscii lines) = read_body gs u h (BodyAscii (drop_blanks lines)).
+Proof. exact body_blanks_ignored_proof. Qed.
+Print Assumptions body_blanks_ignored.
+
+Theorem header_aliases_ignored : forall magic fl ls ls', Forall2 alias_line ls ls' ->
+  parse_header (magic :: fl :: ls') = parse_header (magic :: fl :: ls).
+Proof. exact parse_header_alias. Qed.
+Print Assumptions header_aliases_ignored.
+
+Theorem whole_file_variants : forall a hl b',
+  header_variant (header_of a) hl -> body_variant (enc_body a) b' ->
+  read_mesh {| pf_header := hl; pf_body := b' |} = read_mesh (encode a).
+Proof. exact whole_file_variants_proof. Qed.
+Print Assumptions whole_file_variants.
+
+(* =================================== the theorems the property is composed of =================================== *)
+
 (* ---- "vertex i carries exactly the values of record i" ---- *)
 
 (* Field level.  For every list of declared properties (any order, any mix of the eight scalar types), every record
